@@ -35,6 +35,10 @@ def java_crosscheck(ctx, cases):
             return (x * 3 + y * 5 + im["seed"]) % len(im["pal"])
         if im["ct"] in (0, 2) and im["trns"] and (x + 2 * y) % 5 == 0:
             return im["trns"][c - 1]
+        if im["ct"] in (0, 2) and im["trns"] and (x + 2 * y) % 5 in (1, 2):
+            t = im["trns"][c - 1]
+            hit = c == (1 if (x + 2 * y) % 5 == 1 else chans(im["ct"]))
+            return (t + 1 if t % 2 == 0 else t - 1) if hit else t
         return (x * 2503 + y * 7919 + c * 1237 + im["seed"] * 97) % (2 ** im["bd"])
 
     lines = [l.split() for l in out.splitlines() if l.strip()]
@@ -72,7 +76,7 @@ def run(ctx):
                 "tRNS / one or two IDAT / an ancillary chunk / IEND - and Pixels(im): the colour and alpha every conforming decoder must "
                 "find (sub-byte samples scaled to 8 bits, 16-bit samples truncated or rounded, palette entries, alpha from the alpha "
                 "channel, from per-entry tRNS or from the one transparent colour).  MCPng (TLC) writes files over colour type x depth x "
-                "interlace x size (1x1 .. 17x5, widths that are no multiple of 8) x palette / tRNS x filter cycle, plus raw RGB / RGBA / "
+                "interlace x size (1x1 .. 17x5, widths that are no multiple of 8) x palette / tRNS (with pixels that miss the transparent colour by the lowest bit of one channel) x filter cycle, plus raw RGB / RGBA / "
                 "grey buffers; javax.imageio cross-checks every file the specification wrote.  The library embeds each image in a "
                 "document; the image XObject and its soft mask are fetched from the written file; PngTrace (TLC) inflates the stored "
                 "data itself and requires dimensions, colour space, depth and every sample to be the PNG's pixels.  Non-trivial = "
